@@ -62,6 +62,21 @@ def _constructed(ctx, name):
         return None
 
 
+def mk_single(ctx, _ty, value, _hint=''):
+    """a struct with exactly one field (a wrapper around one collection), whatever that private field is called"""
+    order = ctx.src.struct_fields(_ty, _hint)
+    if order is None or len(order) != 1:
+        raise Unsupported('struct %s is not a single-field wrapper any more: %r' % (_ty, order))
+    return Agg(_ty, [value])
+
+
+def fld_single(ctx, v, _ty, _hint=''):
+    order = ctx.src.struct_fields(_ty, _hint)
+    if order is None or len(order) != 1:
+        raise Unsupported('struct %s is not a single-field wrapper any more: %r' % (_ty, order))
+    return v.fields[0]
+
+
 def mk_opt(ctx, _ty, _hint='', **fields):
     """like mk, but fields the source struct does not have (any more) are dropped"""
     order = ctx.src.struct_fields(_ty, _hint)
@@ -290,8 +305,7 @@ def sym_actor(ctx, p, n_out, n_back, deleted=None, ack_deadline=None):
     delegate = mk(ctx, 'SubscriptionManagerDelegate', state=ArcCell(Cell(LockM('subscription_manager.state', mstate))))
     push_used = p.fresh('push_registered', 'bool')
     p.assume(z3.Implies(dele, z3.Not(push_used)))
-    pstate = Cell(mk(ctx, 'PushSubscriptionsRegistryState',
-                     push_subscriptions=MapM([(push_used, name, Opaque('push-config')), (p.fresh('other_push', 'bool'), oname, Opaque('push-config-other'))])),
+    pstate = Cell(mk_single(ctx, 'PushSubscriptionsRegistryState', MapM([(push_used, name, Opaque('push-config')), (p.fresh('other_push', 'bool'), oname, Opaque('push-config-other'))])),
                   'push-state')
     registry = mk(ctx, 'PushSubscriptionsRegistry', state=ArcCell(Cell(LockM('push_registry.state', pstate))))
     st.mstate, st.pstate, st.name, st.oname, st.other_u, st.reg_used, st.push_used = mstate, pstate, name, oname, other_u, reg_used, push_used
